@@ -17,7 +17,7 @@ from . import common, model, edit, drive
 from .common import Reporter, run_tlc, MachineryError
 from .model import IdMap, build, project
 
-MODS = {"quick": {"star": 45, "ethene": 1}, "thorough": {"star": 4, "ethene": 1}}
+MODS = {"quick": {"star": 45, "stard": 45, "h3": 1, "ethene": 1}, "thorough": {"star": 4, "stard": 6, "h3": 1, "ethene": 1}}
 CLAUSES = ("reactant", "product", "formed", "broken", "fleeting", "allbonds", "encoding", "revsides", "revfleet", "revrev")
 
 
